@@ -1,10 +1,23 @@
 #!/bin/bash
-# matrix.sh : run every quick check against every seeded change on a private copy of the repository.
-# usage: VERIF_REPO=<scratch repo worktree> selftest/matrix.sh [seeded dirs...] > matrix.txt
+# matrix.sh : run the quick checks related to each seeded change (plus its target) on a private copy of the repository.
+# usage: VERIF_REPO=<scratch repo worktree> selftest/matrix.sh > matrix.txt     (FULL=1: all 20 checks per change)
 V="$(cd "$(dirname "$0")/.." && pwd)"
-for d in "${@:-$V/seeded/*}"; do
-  for dd in $d; do
-    [ -f "$dd/patch.diff" ] || continue
-    "$V/selftest/seeded.sh" "$dd"
-  done
+related() {
+  case "$1" in
+    C12-B|C13-*|C14-*|C16-A|C03-B) echo C03 C12 C13 C14 C16 C01 ;;
+    C01-*|C02-*|C07-*|C08-*|C16-B) echo C01 C02 C06 C07 C08 C16 ;;
+    C03-A|C09-*|C10-*) echo C03 C04 C05 C09 C10 ;;
+    C05-*|C06-*|C19-A) echo C05 C06 C19 C17 C01 ;;
+    C04-*|C17-*|C19-B) echo C04 C17 C19 C01 ;;
+    C18-*) echo C18 C01 ;;
+    C11-*|C12-A) echo C11 C12 C08 ;;
+    C15-*) echo C15 C01 ;;
+    C20-*) echo C20 C09 ;;
+    *) echo C01 ;;
+  esac
+}
+for dd in "$V"/seeded/*; do
+  [ -f "$dd/patch.diff" ] || continue
+  id=$(basename "$dd")
+  if [ "${FULL:-0}" = 1 ]; then "$V/selftest/seeded.sh" "$dd"; else "$V/selftest/seeded.sh" "$dd" $(related "$id"); fi
 done
